@@ -42,3 +42,24 @@ Definition chk_gram (r : res (@gout Q (@gstate Q accst))) (o : obs_run) : bool :
   end.
 
 Definition fin_value (f : list Q -> res Q) (w : list Q) : res (Ext Q) := bind (f w) (fun v => Ok (Fin v)).
+
+(* ---------------- GroupBCD: real _solve against the dyadic mock kernels of Skel/MockACD.v ---------------- *)
+Require Import SK.Skel.MockACD SK.Skel.GroupBCD.
+(* the mock penalty's generalized_support looks at the coefficients only (as the real group penalties do), also when
+   it is handed the full vector with the intercept entry *)
+Definition mock_kernels_g (m : mock) (p : nat) : @kernels Q MockACD.accst :=
+  let K := mock_kernels m in
+  {| k_lipschitz := k_lipschitz K; k_is_penalized := k_is_penalized K; k_full_grad := k_full_grad K;
+     k_subdiff := k_subdiff K; k_fixpoint := k_fixpoint K; k_intercept_step := k_intercept_step K;
+     k_gsupp := fun w => k_gsupp K (firstn p w); k_topk := k_topk K; k_epoch := k_epoch K; k_grad_ws := k_grad_ws K;
+     k_df_value := fun w Xw => k_df_value K (firstn p w) Xw; k_pen_value := k_pen_value K;
+     k_acc_init := k_acc_init K; k_acc_step := k_acc_step K |}.
+
+Definition chk_bcd (has_buf : bool) (r : res (@gout Q (@bstate Q MockACD.accst))) (o : observed) : bool :=
+  match r with
+  | Err _ => ob_err o
+  | Ok g =>
+      negb (ob_err o) && all2 qclose (b_w (g_s g)) (ob_w o) && (negb has_buf || all2 qclose (b_Xw (g_s g)) (ob_Xw o))
+      && all2 ext_eqq (g_obj g) (ob_obj o) && ext_eqq (g_stop g) (ob_stop o)
+      && (g_iters g =? ob_iters o)%nat && (b_epochs (g_s g) =? ob_epochs o)%nat
+  end.
